@@ -16,8 +16,9 @@ import time
 from fractions import Fraction
 
 import fw
+from props import c19_doc as DOC
 
-LEAN_PROPS = ["NmlVerif.Props.C19", "NmlVerif.Props.C19Gen"]
+LEAN_PROPS = ["NmlVerif.Props.C19", "NmlVerif.Props.C19Gen", "NmlVerif.Props.C19Rx", "NmlVerif.Props.C19Summ"]
 LEVEL = "proof"
 
 # ------------------------------------------------------------------------------------------------
@@ -42,6 +43,19 @@ TOTALS = {"tot_cells": ".cells", "tot_pop": ".pops", "tot_conns": ".conns", "tot
 
 class Gap(Exception):
     pass
+
+
+def _load_translator(name):
+    import importlib.util
+    path = os.path.join(fw.VERIF, "translators", name + ".py")
+    spec = importlib.util.spec_from_file_location("c19_tr_" + name, path)
+    mod = importlib.util.module_from_spec(spec)
+    spec.loader.exec_module(mod)
+    return mod
+
+
+RXT = _load_translator("c19_rx")          # schema patterns -> Rx terms
+SUMT = _load_translator("c19_summary")    # body of the network loop of summary() -> Summ program
 
 
 def lean_chars(s):
@@ -484,7 +498,7 @@ def generate(repo):
     tree = ast.parse(open(os.path.join(repo, "neuroml/nml/nml.py")).read())
     own_n, bases, inits = nml_tables(tree)
     own_h = helper_tables(os.path.join(repo, "neuroml/nml/helper_methods.py"), bases)
-    parts = ["import NmlVerif.Model.Accessors",
+    parts = ["import NmlVerif.Model.Accessors", "import NmlVerif.Model.Rx", "import NmlVerif.Model.AccSummary",
              "/-! GENERATED on every check run by harness/props/c19.py (regenerate) from the Python AST of",
              "    neuroml/nml/helper_methods.py, neuroml/nml/nml.py and neuroml/hdf5/NeuroMLXMLParser.py. Do not edit. -/",
              "set_option linter.unusedVariables false", "namespace NmlVerif.Acc.Gen", "variable {F : Type}", ""]
@@ -501,6 +515,10 @@ def generate(repo):
             gaps.append("%s: NeuroMLDocument.summary not found" % prefix)
         else:
             parts.append(summary_block(sm, gaps).replace("def Nml.", "def %s." % prefix))
+            prog = SUMT.net_program(sm, gaps, prefix)
+            if prog is not None:
+                parts.append("/-- the body of `for network in self.networks:` of `summary` (%s) -/\ndef %s.netProg : List Summ.L3 :=\n  %s\n"
+                             % (prefix, prefix, prog))
     parts.append("/-! ### constructors (nml.py) -/\n")
     parts.append(ctor_block(inits, bases, gaps))
     ptree = ast.parse(open(os.path.join(repo, "neuroml/hdf5/NeuroMLXMLParser.py")).read())
@@ -518,8 +536,12 @@ def generate(repo):
             nfun += 1
         except Gap as g:
             gaps.append("NeuroMLXMLParser._parse_delay: %s" % g)
+    SUMT.check_utils(os.path.join(repo, "neuroml", "utils.py"), gaps)
+    rxb, rx_texts, xsd_name = RXT.block(repo, tree, gaps)
+    parts.append("/-! ### schema patterns (%s and nml.py), parsed by Python's `re._parser` -/\n" % xsd_name)
+    parts.append(rxb)
     parts.append("end NmlVerif.Acc.Gen\n")
-    return "\n".join(parts), gaps, {"functions_translated": nfun}
+    return "\n".join(parts), gaps, {"functions_translated": nfun, "patterns": rx_texts, "xsd": xsd_name}
 
 
 GEN_PATH = os.path.join(fw.LEAN, "NmlVerif", "Gen", "Accessors.lean")
@@ -549,22 +571,34 @@ RULE = ("accessor stream: every connection/input class x every accessor it has, 
         "the letters m/s/e) and indices 0..10^18 (canonical and leading-zero spellings), segment/fraction/weight unset / "
         "zero / non-zero (dyadic decimals), keyword, string-typed and assigned-after-construction values; delay stream: "
         "every spelling class of Nml2Quantity_time (sign x integer part x fraction x exponent x whitespace x unit, "
-        "degenerate number parts) checked against the regex shipped in nml.py, plus a malformed stream; documents: 0-3 "
-        "networks with random populations (size-only / instance lists / both), projections of the three kinds with all "
-        "eight connection lists, input lists, explicit inputs and synaptic connections, totals counted harness-side and "
-        "parsed back from summary() text, a share re-read from written XML; has_segment_fraction_info on random lists. "
-        "non-trivial = path with index >= 10 or id with digit/underscore, or a stored (not unset) field, or a delay with "
-        "fraction/exponent/whitespace, or a network with >= 2 populations and >= 1 non-empty projection; distinct = "
-        "distinct canonical case descriptions")
+        "degenerate number parts) checked against the regex shipped in nml.py, plus a malformed stream (units, signs, "
+        "digits of other scripts); pattern streams: strings around the three schema patterns (time, reference path, NmlId; "
+        "one-character edits of valid strings, random strings) decided by the shipped regex, by the hand recogniser and by "
+        "the Rx derived from the XSD; reference readings: every shape the reference pattern admits (with/without ../, 1-4 "
+        "indices, component, trailing slash) with what the classification theorem says the code does; documents: 0-3 "
+        "networks, populations size-only / instances-only / both disagreeing / neither, the three projection kinds with "
+        "all eight connection lists mixed in one projection, input lists with input + inputW mixed, explicit inputs, "
+        "synaptic connections, empty lists, includes / ComponentTypes / properties with the show_includes / "
+        "show_non_network flags, every element's values recorded; routes: summary() direct, after XML re-read, after HDF5 "
+        "re-read, on optimized HDF5 containers, via utils.get_summary / print_summary, and NeuroMLXMLParser.parse with a "
+        "recording handler; the whole summary text is compared with the translated model, every total / per-list count / "
+        "population size / first-element id parsed from the text with the generation record, the accessors of every "
+        "re-read element with the stored values; has_segment_fraction_info on random lists. non-trivial = path with index "
+        ">= 10 or id with digit/underscore, or a stored (not unset) field, or a delay with fraction/exponent/whitespace, or "
+        "a network with >= 2 populations and >= 1 non-empty projection, or a reference reading outside the two forms; "
+        "distinct = distinct canonical case descriptions")
 TRUST = [
-    "py2lean-style translator in harness/props/c19.py (AST shapes -> prelude combinators; method resolution; constructor defaults; tot_* += table) is validated by the correspondence streams, not verified",
-    "Python builtins str.split/strip/in/endswith/slices/int() are modelled by the prelude of Model/Accessors.lean for ASCII digits (non-ASCII digits accepted by int() are outside the modelled alphabet); float() / float arithmetic is an abstract parameter (FloatSem) in every theorem and exact rationals in the driver",
-    "has_segment_fraction_info, summary() text layout, sorted(), inspect.getmembers: hand model + correspondence only",
+    "py2lean-style translators in harness/props/c19.py and translators/c19_summary.py, c19_rx.py (AST shapes -> prelude combinators / statements of the summary language / Rx terms; method resolution; constructor defaults) are validated by the correspondence streams, not verified; they refuse what they do not understand",
+    "Python builtins str.split/strip/in/endswith/slices/int() are modelled by the prelude of Model/Accessors.lean (decimal digits of every script as int()/float() read them, Unicode 15 table); float(): abstract parameter (FloatSem) in the theorems of Props/C19, exact rationals (RatSem) in Props/C19Rx and in the driver; binary rounding of float() and of *1000.0 is not modelled",
+    "Python's re._parser is the reader of the schema patterns (the same reader the validators use); Rx.Matches is the meaning of a pattern, the matcher the driver runs is proved to decide it",
+    "summary(): str() of connections / inputs / projections / input lists / locations is an opaque text supplied by the harness from the real object (Population.__str__ is modelled); the prologue (inspect.getmembers listing, flags) and has_segment_fraction_info, get_summary, print_summary are hand models whose source text is pinned by the translator; sorted() = stable sort by code points",
 ]
 ASSUMPTIONS = [
-    "delays: theorems give float(<number part>) and float(<number part>)*1000.0; that Python's float() reads a decimal spelling as its value is sampled (oracle: within 2^-52 relative of the exact decimal value, exact for dyadic values)",
+    "delays: Props/C19Rx proves the exact decimal value (x1000 for s) for every string of the schema pattern with exact rational float(); that Python's binary float() and *1000.0 are within 2^-52 relative of it is sampled by the oracle (exact for dyadic values)",
     "connection classes: 'unset' = constructor argument not passed (the constructor stores the schema default); an explicit None on a connection raises TypeError in the accessor (modelled, outside the statement)",
-    "ElectricalConnection / ContinuousConnection (non-instance) hold plain indices, not reference paths: covered by the model and correspondence, not by the cell-index theorems",
+    "ElectricalConnection / ContinuousConnection (non-instance) hold plain indices, not reference paths: c19_index_accessors(_rat) (int(float(s)) exact below 2^53)",
+    "cell total of a population = number of instance elements when it lists any (they are the cells present in the document), else the declared size, else 0 - also when size and the instance list disagree",
+    "repr() of the strings in the header listing is modelled for strings without quotes, backslashes and non-printable characters (the generator's alphabet)",
 ]
 
 LETTERS = "abcdefghijklmnopqrstuvwxyzABCDEFGHIJKLMNOPQRSTUVWXYZ"
@@ -623,6 +657,16 @@ def gen_path(rng, form=None):
     return {"s": s, "form": form, "pop": pop, "comp": comp, "n": n, "digits": ds}
 
 
+UNI_ZEROS = [0x660, 0x6F0, 0x966, 0xFF10, 0x1D7CE, 0x1D7D8]      # Arabic-Indic, Persian, Devanagari, fullwidth, mathematical bold / double-struck
+
+
+def uni_digits(rng, n):
+    """a spelling of n in decimal digits of another script (or mixed with ASCII digits)"""
+    z = rng.choice(UNI_ZEROS)
+    mixed = rng.random() < 0.3
+    return "".join(d if (mixed and rng.random() < 0.5) else chr(z + int(d)) for d in str(n))
+
+
 def gen_bad_ref(rng):
     """references outside the two forms (model vs code only)"""
     pop, comp, n = gen_id(rng), gen_id(rng), gen_index(rng)
@@ -631,7 +675,10 @@ def gen_bad_ref(rng):
         "../%s/ %d /%s" % (pop, n, comp), "%s[1_0]" % pop, "%s[+%d]" % (pop, n), "%s[-%d]" % (pop, n), "../%s/%s/%d" % (pop, comp, n),
         "%s[%d][7]" % (pop, n), "%s[%s]" % (pop, comp), "../../%s/%d/%s" % (pop, n, comp), "%s[%d]/%d/x" % (pop, n, n + 1),
         "../%s/%d.0/%s" % (pop, n, comp), "%s[1e3]" % pop, "%s[\t%d\n]" % (pop, n), "/%s/%d" % (pop, n), "%s[__1]" % pop,
-        "%s[%d_]" % (pop, n), None, 5, "../%s//%d" % (pop, n)])
+        "%s[%d_]" % (pop, n), None, 5, "../%s//%d" % (pop, n),
+        # digits of other scripts (int() reads them; the schema pattern does not admit them), other non-ASCII characters
+        "%s[%s]" % (pop, uni_digits(rng, n)), "../%s/%s/%s" % (pop, uni_digits(rng, n), comp), "%s[\u2003%s\u00a0]" % (pop, uni_digits(rng, n)),
+        "%s[%d\u00b2]" % (pop, n), "%s[\u2460]" % pop, "../%s/%d\u0663_\u0664/%s" % (pop, n, comp)])
 
 
 def dyadic(rng, lo_exp=1, hi_exp=10, maxnum=None):
@@ -713,7 +760,9 @@ def gen_time_spelling(rng):
     cls = "%s|%s|%s|%s|%s|%s" % ("neg" if sign else "pos", "noint" if not ip else ("lead0" if len(ip) > 1 and ip[0] == "0" else "int"),
                                  "frac" if fp else "nofrac", ("E" if ex[:1] == "E" else "e") + ("-" if "-" in ex else "+") if ex else "noexp",
                                  "ws" if ws else "nows", unit)
-    return {"s": num + ws + unit, "num": num, "ws": ws, "unit": unit, "cls": cls}
+    parts = {"neg": bool(sign), "ip": ip, "fd": (fp[1:] if fp else None),
+             "ex": ({"mark": ex[0], "neg": ex[1:2] == "-", "digits": ex.lstrip("eE-")} if ex else None)}
+    return {"s": num + ws + unit, "num": num, "ws": ws, "unit": unit, "cls": cls, "parts": parts}
 
 
 def exact_time_value(num):
@@ -733,7 +782,8 @@ def exact_time_value(num):
 def gen_bad_delay(rng):
     v = rng.choice(["5", "", "s", "ms", "5 m s", "5mss", "5sms", "1 s 2 ms", None, "5 S", "5msec", "5 sec", "ms5", "s5", "5.ms", "5.s",
                     "+5ms", "+5s", " 5ms", " 5 s ", "5ms ", "5s\n", "1_0ms", "1_0 s", "0x10ms", "5e+3ms", "5e+3 s", "--5ms", "5..0s",
-                    "1e", "1e ms", "five ms", "5\xa0ms", "5 s", ".ms", ".s", "-ms", "-s", "e5s", "e5ms", "5min", "5us", "5m", 5, {"f": "2.5"}])
+                    "1e", "1e ms", "five ms", "5\xa0ms", "5 s", ".ms", ".s", "-ms", "-s", "e5s", "e5ms", "5min", "5us", "5m", 5, {"f": "2.5"},
+                    "\u0663ms", "\u0661\u0662.\u0665 s", "\uff11\uff10e\uff12ms", "1\u0663 ms", "\u00b2ms", "\u0663_\u0664s", "-\u0966.\u096b ms"])
     return v
 
 
@@ -899,6 +949,62 @@ def gen_regex_case(rng):
     return {"kind": "match_time", "s": t, "tags": ["regex"], "nontrivial": len(t) >= 3}
 
 
+def gen_ref_parts(rng):
+    """a reading of the slash forms of the reference pattern (wider than the two forms of the property)"""
+    more = [gen_digits(rng, gen_index(rng) % 10 ** 6) for _ in range(rng.choice([0, 0, 0, 1, 1, 2, 3]))]
+    return {"dots": rng.random() < 0.5, "pop": gen_id(rng), "d1": gen_digits(rng, gen_index(rng) % 10 ** 9), "more": more,
+            "comp": (gen_id(rng) if rng.random() < 0.5 else None), "slash": rng.random() < 0.3}
+
+
+def ref_parts_text(p):
+    return (("../" if p["dots"] else "") + p["pop"] + "/" + p["d1"] + "".join("/" + d for d in p["more"])
+            + ("/" + p["comp"] if p["comp"] is not None else "") + ("/" if p["slash"] else ""))
+
+
+def ref_parts_outcome(p):
+    """what the statement-level description (RefParts.outcome) says `_get_cell_id` does"""
+    if p["dots"]:
+        return {"ok": {"i": str(int(p["d1"]))}}
+    if p["more"]:
+        return {"ok": {"i": str(int(p["more"][0]))}}
+    if p["comp"] is None and not p["slash"]:
+        return {"err": "IndexError"}
+    return {"err": "ValueError"}
+
+
+def gen_refparts_case(rng):
+    p = gen_ref_parts(rng)
+    return {"kind": "ref_parts", "parts": p, "cls": rng.choice(["Connection", "Input", "ExplicitInput", "SynapticConnection",
+                                                                 "ElectricalConnectionInstanceW", "ContinuousConnectionInstance"]),
+            "tags": ["ref-parts:%s:%s" % ("dots" if p["dots"] else "nodots", "multi" if p["more"] else ("comp" if p["comp"] else "bare"))],
+            "nontrivial": bool(p["more"]) or not p["dots"]}
+
+
+def gen_refrx_case(rng):
+    """strings around the Nml2PopulationReferencePath pattern: the shipped regex vs the derived `Rx`"""
+    r = rng.random()
+    if r < 0.35:
+        t = ref_parts_text(gen_ref_parts(rng))
+    elif r < 0.55:
+        t = gen_path(rng)["s"]
+    elif r < 0.7:
+        t = str(gen_bad_ref(rng))
+    else:
+        t = "".join(rng.choice("..//[]ab_09  \n") for _ in range(rng.randint(0, 10)))
+    if rng.random() < 0.35 and t:
+        i = rng.randint(0, len(t))
+        t = t[:i] + rng.choice(["", "/", "[", "]", ".", "0", "a", "_", " ", "-", "\n", "\u0663", "\u00e9"]) + t[i + (rng.random() < 0.5):]
+    return {"kind": "match_ref", "s": t, "tags": ["regex-ref"], "nontrivial": len(t) >= 4}
+
+
+def gen_idrx_case(rng):
+    t = gen_id(rng) if rng.random() < 0.6 else "".join(rng.choice("ab_09Z -.\u00e9\u0663") for _ in range(rng.randint(0, 6)))
+    if rng.random() < 0.3 and t:
+        i = rng.randint(0, len(t))
+        t = t[:i] + rng.choice(["", "-", " ", "9", "_", ".", "\u00e9", "\n"]) + t[i + (rng.random() < 0.5):]
+    return {"kind": "match_id", "s": t, "tags": ["regex-id"], "nontrivial": len(t) >= 2}
+
+
 def gen_hsfi_case(rng):
     k = rng.choice([0, 1, 1, 2, 3, 5])
     conns, any_info = [], False
@@ -922,44 +1028,6 @@ def gen_hsfi_case(rng):
     return {"kind": "hsfi", "family": kind, "conns": conns,
             "expect": ({"kind": "bool", "v": any_info} if kind == "old" else None),
             "tags": ["hsfi:%s:%d" % (kind, min(k, 2))], "nontrivial": k >= 2 and any_info}
-
-
-def gen_doc_case(rng, big=False):
-    nets = []
-    for _ in range(rng.choice([0, 1, 1, 1, 2, 3])):
-        used = set()
-
-        def fresh():
-            for _ in range(50):
-                i = gen_id(rng)
-                if i not in used and len(i) < 40:
-                    used.add(i)
-                    return i
-            i = "id_%d" % len(used)
-            used.add(i)
-            return i
-        pops = []
-        for _ in range(rng.choice([0, 1, 2, 3, 4] + ([8] if big else []))):
-            inst = rng.choice([0, 0, 1, 2, 4])
-            size = rng.choice([None, 0, 1, 5, inst, inst + 3, rng.randint(0, 5000)])
-            pops.append({"id": fresh(), "instances": inst, "size": size})
-        hi = 6 if big else 3
-
-        def cnt():
-            return rng.choice([0, 0, 1, 2, rng.randint(0, hi)])
-        net = {"id": fresh(), "temperature": rng.choice([None, None, "32degC"]), "populations": pops,
-               "projections": [{"id": fresh(), "connections": cnt(), "connection_wds": cnt()} for _ in range(rng.choice([0, 1, 2, 3]))],
-               "electrical_projections": [{"id": fresh(), "electrical_connections": cnt(), "electrical_connection_instances": cnt(),
-                                           "electrical_connection_instance_ws": cnt()} for _ in range(rng.choice([0, 0, 1, 2]))],
-               "continuous_projections": [{"id": fresh(), "continuous_connections": cnt(), "continuous_connection_instances": cnt(),
-                                           "continuous_connection_instance_ws": cnt()} for _ in range(rng.choice([0, 0, 1, 2]))],
-               "input_lists": [{"id": fresh(), "input": cnt(), "input_ws": cnt()} for _ in range(rng.choice([0, 1, 2, 3]))],
-               "explicit_inputs": rng.choice([0, 0, 1, 3]), "synaptic_connections": rng.choice([0, 0, 1, 2])}
-        nets.append(net)
-    return {"kind": "doc", "nets": nets, "extras": rng.choice([0, 1, 2]), "seed": rng.randint(0, 10 ** 9),
-            "roundtrip": rng.random() < 0.25, "tags": ["doc:nets%d" % len(nets)],
-            "nontrivial": any(len(n["populations"]) >= 2 and any(p["connections"] + p["connection_wds"] > 0 for p in n["projections"])
-                              for n in nets)}
 
 
 # ------------------------------------------------------------------------------------------------
@@ -1054,138 +1122,6 @@ def real_hsfi(case):
     return call_real(lambda: u.has_segment_fraction_info(conns))
 
 
-TOTAL_RES = [re.compile(r"^\*   (\d+) cells in (\d+) populations $"),
-             re.compile(r"^\*   (\d+) connections in (\d+) projections $"),
-             re.compile(r"^\*   (\d+) inputs in (\d+) input lists $")]
-
-
-def build_doc(case):
-    import random
-    import neuroml as n
-    r = random.Random(case["seed"])
-    doc = n.NeuroMLDocument(id="doc_%d" % (case["seed"] % 1000))
-    for k in range(case["extras"]):
-        doc.izhikevich_cells.append(n.IzhikevichCell(id="iz%d" % k, v0="-70mV", thresh="30mV", a="0.02", b="0.2", c="-65", d="6"))
-        doc.pulse_generators.append(n.PulseGenerator(id="pg%d" % k, delay="0ms", duration="1ms", amplitude="1nA"))
-
-    def ref(pops):
-        p = gen_path(r)
-        return p["s"]
-
-    def frac():
-        return r.choice([0.5, 0.5, 0.0, 0.25, 1.0])
-    for spec in case["nets"]:
-        net = n.Network(id=spec["id"], temperature=spec["temperature"])
-        doc.networks.append(net)
-        for p in spec["populations"]:
-            pop = n.Population(id=p["id"], component="iz0", size=p["size"], type="populationList" if p["instances"] else None)
-            for i in range(p["instances"]):
-                pop.instances.append(n.Instance(id=i, location=n.Location(x=float(i), y=r.choice([0.0, 1.5]), z=2.5)))
-            if r.random() < 0.2:
-                pop.properties.append(n.Property(tag="color", value="1 0 0"))
-            net.populations.append(pop)
-        for p in spec["projections"]:
-            pr = n.Projection(id=p["id"], presynaptic_population="pa", postsynaptic_population="pb", synapse="syn")
-            for i in range(p["connections"]):
-                pr.connections.append(n.Connection(id=i, pre_cell_id=ref(0), post_cell_id=ref(0), pre_segment_id=r.choice([0, 3]),
-                                                   post_fraction_along=frac()))
-            for i in range(p["connection_wds"]):
-                pr.connection_wds.append(n.ConnectionWD(id=i, pre_cell_id=ref(0), post_cell_id=ref(0), weight=r.choice([0.0, 0.5, 2.0]),
-                                                        delay=r.choice(["5ms", "0.5 s", "1e-3s", "1.5E2 ms"])))
-            net.projections.append(pr)
-        for p in spec["electrical_projections"]:
-            ep = n.ElectricalProjection(id=p["id"], presynaptic_population="pa", postsynaptic_population="pb")
-            for i in range(p["electrical_connections"]):
-                ep.electrical_connections.append(n.ElectricalConnection(id=i, pre_cell=str(r.randint(0, 99)), post_cell=str(r.randint(0, 99)), synapse="gj"))
-            for i in range(p["electrical_connection_instances"]):
-                ep.electrical_connection_instances.append(n.ElectricalConnectionInstance(id=i, pre_cell=ref(0), post_cell=ref(0), synapse="gj"))
-            for i in range(p["electrical_connection_instance_ws"]):
-                ep.electrical_connection_instance_ws.append(n.ElectricalConnectionInstanceW(id=i, pre_cell=ref(0), post_cell=ref(0), synapse="gj",
-                                                                                            weight=r.choice([0.0, 0.25, 1.0])))
-            net.electrical_projections.append(ep)
-        for p in spec["continuous_projections"]:
-            cp = n.ContinuousProjection(id=p["id"], presynaptic_population="pa", postsynaptic_population="pb")
-            for i in range(p["continuous_connections"]):
-                cp.continuous_connections.append(n.ContinuousConnection(id=i, pre_cell=str(r.randint(0, 99)), post_cell=str(r.randint(0, 99)),
-                                                                        pre_component="sa", post_component="sb"))
-            for i in range(p["continuous_connection_instances"]):
-                cp.continuous_connection_instances.append(n.ContinuousConnectionInstance(id=i, pre_cell=ref(0), post_cell=ref(0),
-                                                                                         pre_component="sa", post_component="sb"))
-            for i in range(p["continuous_connection_instance_ws"]):
-                cp.continuous_connection_instance_ws.append(n.ContinuousConnectionInstanceW(id=i, pre_cell=ref(0), post_cell=ref(0),
-                                                                                            pre_component="sa", post_component="sb",
-                                                                                            weight=r.choice([0.0, 0.5, 4.0])))
-            net.continuous_projections.append(cp)
-        for l in spec["input_lists"]:
-            il = n.InputList(id=l["id"], populations="pa", component="pg0")
-            for i in range(l["input"]):
-                il.input.append(n.Input(id=i, target=ref(0), destination="synapses", segment_id=r.choice([None, 0, 2]),
-                                        fraction_along=r.choice([None, 0.0, 0.25])))
-            for i in range(l["input_ws"]):
-                il.input_ws.append(n.InputW(id=i, target=ref(0), destination="synapses", weight=r.choice([0.0, 1.0, 0.5])))
-            net.input_lists.append(il)
-        for i in range(spec["explicit_inputs"]):
-            net.explicit_inputs.append(n.ExplicitInput(target=ref(0), input="pg0"))
-        for i in range(spec["synaptic_connections"]):
-            net.synaptic_connections.append(n.SynapticConnection(from_=ref(0), to=ref(0), synapse="syn"))
-    return doc
-
-
-def parse_summary(text):
-    """-> list (one per network, in text order) of {"lines": [three total lines], "totals": [cells, pops, conns, projs, inputs, lists]}"""
-    nets, cur = [], None
-    for line in text.split("\n"):
-        for k, rx in enumerate(TOTAL_RES):
-            m = rx.match(line)
-            if m:
-                if k == 0:
-                    cur = {"lines": [], "totals": []}
-                    nets.append(cur)
-                if cur is None or len(cur["lines"]) != k:
-                    return None
-                cur["lines"].append(line)
-                cur["totals"] += [int(m.group(1)), int(m.group(2))]
-    if any(len(n["lines"]) != 3 for n in nets):
-        return None
-    return nets
-
-
-def real_doc(case, tmpdir):
-    doc = build_doc(case)
-    out = {}
-    try:
-        out["first"] = parse_summary(doc.summary())
-    except Exception as e:  # noqa
-        out["first"] = {"err": type(e).__name__ + ":" + str(e)[:80]}
-    if case.get("roundtrip") and tmpdir:
-        import neuroml.loaders as L
-        import neuroml.writers as W
-        p = os.path.join(tmpdir, "d.nml")
-        try:
-            W.NeuroMLWriter.write(doc, p)
-            d2 = L.read_neuroml2_file(p, include_includes=False)
-            out["reread"] = parse_summary(d2.summary())
-        except Exception as e:  # noqa
-            out["reread"] = {"err": type(e).__name__ + ":" + str(e)[:80]}
-    return out
-
-
-def counted_totals(net):
-    """the actual numbers in the document, counted from the generation record"""
-    cells = sum(p["instances"] if p["instances"] > 0 else (p["size"] or 0) for p in net["populations"])
-    conns = (sum(p["connections"] + p["connection_wds"] for p in net["projections"])
-             + sum(p["electrical_connections"] + p["electrical_connection_instances"] + p["electrical_connection_instance_ws"]
-                   for p in net["electrical_projections"])
-             + sum(p["continuous_connections"] + p["continuous_connection_instances"] + p["continuous_connection_instance_ws"]
-                   for p in net["continuous_projections"]))
-    projs = len(net["projections"]) + len(net["electrical_projections"]) + len(net["continuous_projections"])
-    inputs = sum(l["input"] + l["input_ws"] for l in net["input_lists"])
-    return [cells, len(net["populations"]), conns, projs, inputs, len(net["input_lists"])]
-
-
-TOTAL_NAMES = ["cells", "populations", "connections", "projections", "inputs", "input-lists"]
-
-
 # ------------------------------------------------------------------------------------------------
 # model lines
 # ------------------------------------------------------------------------------------------------
@@ -1206,13 +1142,21 @@ def model_lines(case):
         for net in case["nets"]:
             j = {"populations": [{"sub": {}, "instances": p["instances"], "size": p["size"]} for p in net["populations"]]}
             for L in ("projections", "electrical_projections", "continuous_projections", "input_lists"):
-                j[L] = [{"sub": {a: v for a, v in it.items() if a != "id"}} for it in net[L]]
+                j[L] = [{"sub": {a: len(v) for a, v in it.items() if isinstance(v, list)}} for it in net[L]]
             nets.append(j)
-        return [json.dumps({"op": "summary", "nets": nets})]
+        out = [json.dumps({"op": "summary", "nets": nets})]
+        r = REAL_DOCS.get(id(case))
+        if r is not None and r.get("tree") is not None:
+            out.append(json.dumps({"op": "summary_text", "doc": r["tree"]}))
+        return out
     if k == "spec":
         return [json.dumps(dict(case["args"], op="spec"))]
-    if k == "match_time":
-        return [json.dumps({"op": "match_time", "s": case["s"]})]
+    if k in ("match_time", "match_ref", "match_id"):
+        return [json.dumps({"op": k, "s": case["s"]})]
+    if k == "ref_parts":
+        return [json.dumps(dict(case["parts"], op="ref_parts")), json.dumps({"op": "cellid", "cls": case["cls"], "arg": ref_parts_text(case["parts"])})]
+    if k == "time_parts":
+        return [json.dumps(dict(case["parts"], op="time_parts"))]
     raise ValueError(k)
 
 
@@ -1260,6 +1204,65 @@ def judge(e, real):
     return False
 
 
+REAL_DOCS = {}      # id(case) -> result of c19_doc.run_real (filled before the driver runs: the model gets the object tree)
+
+
+def check_doc(ctx, case, desc, mout, tmpdir):
+    r = REAL_DOCS.pop(id(case), None)
+    if r is None:
+        r = DOC.run_real(case, tmpdir)
+    which = r["which"]
+    ctx.count("doc:" + which)
+    text = r["text"]
+    if r.get("unsupported"):
+        ctx.count("doc:route-unsupported")
+        return
+    if isinstance(text, dict):
+        ctx.disagree("summary", {"case": desc, "which": which}, text, "a summary text")
+        ctx.fail("C19:summary:unreadable", "summary() (or the route to it) raised: %s" % text.get("err"),
+                 {"case": case, "which": which, "real": text})
+        return
+    parsed = DOC.parse_summary(text)
+    if "err" in parsed:
+        ctx.fail("C19:summary:unreadable", "the summary text has no readable totals: %s" % parsed["err"],
+                 {"case": case, "which": which, "text": text[:2000]})
+        return
+    flags = r.get("flags", case.get("flags") or {})
+    # (a) the totals model (Props/C19: c19_total_*) against the real text
+    ctx.corr_evals += 1
+    model = mout[0].get("nets", [])
+    got = [[n["totals"]["cells"][0], n["totals"]["cells"][1], n["totals"]["conns"][0], n["totals"]["conns"][1],
+            n["totals"]["inputs"][0], n["totals"]["inputs"][1]] for n in parsed["nets"]]
+    if got != [n.get("totals") for n in model]:
+        ctx.disagree("summary", {"case": desc, "which": which}, got, [n.get("totals") for n in model])
+    # (b) the full text against the model of the whole of summary()
+    if len(mout) > 1 and r.get("tree") is not None:
+        ctx.corr_evals += 1
+        if mout[1] != {"ok": text}:
+            ctx.disagree("summary-text", {"case": desc, "which": which}, first_diff(text, mout[1]), None)
+    # (c) the reference: every determinate number / identifier against the generation record
+    DOC.compare_summary(ctx, case, parsed, which, flags, r["lossy"])
+    if r.get("handler") is not None:
+        DOC.compare_handler(ctx, case, r["handler"])
+        ctx.count("doc:handler-connections", len(r["handler"].conns))
+    if which in ("reread", "h5", "h5opt"):
+        ctx.count("doc:reread-accessor-evaluations", DOC.reread_accessor_checks(ctx, case, r["doc"], which))
+    if "printed_same" in r and not r["printed_same"]:
+        ctx.fail("C19:print_summary:text", "print_summary() does not print the text get_summary() returns", {"case": case})
+
+
+def first_diff(text, m):
+    """a short description of where the real text and the model's text part"""
+    if not (isinstance(m, dict) and isinstance(m.get("ok"), str)):
+        return {"real": text[:200], "model": m}
+    a, b = text.split("\n"), m["ok"].split("\n")
+    for i in range(max(len(a), len(b))):
+        x, y = (a[i] if i < len(a) else None), (b[i] if i < len(b) else None)
+        if x != y:
+            return {"line": i, "real": x, "model": y}
+    return {"same": True}
+
+
 def check_case(ctx, case, mout, tmpdir=None):
     k = case["kind"]
     desc = {x: case[x] for x in case if x not in ("tags", "nontrivial", "expect", "path", "spelling")}
@@ -1291,47 +1294,57 @@ def check_case(ctx, case, mout, tmpdir=None):
                      "%s does not return the referenced value (%s): got %s" % (name, e.get("why", ""), json.dumps(real)),
                      {"case": case, "expected": e, "real": real})
     elif k == "doc":
-        real = real_doc(case, tmpdir)
-        want = [counted_totals(n) for n in case["nets"]]
-        model = mout[0].get("nets", [])
-        for which in ("first", "reread"):
-            if which not in real:
-                continue
-            r = real[which]
-            ctx.corr_evals += 1
-            ctx.count("doc:" + which)
-            if not isinstance(r, list):
-                ctx.disagree("summary", {"case": desc, "which": which}, r, model)
-                ctx.fail("C19:summary:unreadable", "summary() raised or its total lines are not the expected three per network",
-                         {"case": case, "which": which, "real": r})
-                continue
-            if [n["lines"] for n in r] != [n.get("lines") for n in model]:
-                ctx.disagree("summary", {"case": desc, "which": which}, [n["lines"] for n in r], [n.get("lines") for n in model])
-            got = [n["totals"] for n in r]
-            if len(got) != len(want):
-                ctx.fail("C19:summary:network-count", "summary() does not report one block of totals per network",
-                         {"case": case, "which": which, "reported": got, "counted": want})
-                continue
-            for g, w in zip(got, want):
-                for i in range(6):
-                    if g[i] != w[i]:
-                        ctx.fail("C19:summary:%s%s" % (TOTAL_NAMES[i], ":reread" if which == "reread" else ""),
-                                 "summary() reports %d %s, the document has %d" % (g[i], TOTAL_NAMES[i], w[i]),
-                                 {"case": case, "which": which, "reported": g, "counted": w})
+        check_doc(ctx, case, desc, mout, tmpdir)
     elif k == "match_time":
         ctx.corr_evals += 1
-        trx, _ = time_regex()
+        trx = time_regex()[0]
         mo = trx.search(case["s"])
         real = {"match": mo is not None and len(mo.group(0)) == len(case["s"])}      # as gds_validate_simple_patterns does
         ctx.count("regex:match" if real["match"] else "regex:nomatch")
+        real["rx"] = real["match"]                  # the `Rx` derived from the XSD decides the same language
         if real["match"]:
             body = case["s"][:-2] if case["s"].endswith("ms") else case["s"][:-1]
             real["num"] = body.rstrip()
             model = mout[0]
         else:
-            model = {"match": mout[0].get("match")}
+            model = {"match": mout[0].get("match"), "rx": mout[0].get("rx")}
         if real != model:
             ctx.disagree("time-pattern", case["s"], real, mout[0])
+    elif k in ("match_ref", "match_id"):
+        ctx.corr_evals += 1
+        _, prx, irx = time_regex()
+        rx_ = prx if k == "match_ref" else irx
+        mo = rx_.search(case["s"]) if rx_ is not None else None
+        real = {"rx": mo is not None and len(mo.group(0)) == len(case["s"])}     # as gds_validate_simple_patterns does
+        ctx.count("%s:%s" % (case["tags"][0], "match" if real["rx"] else "nomatch"))
+        if k == "match_id":
+            real["isNmlId"] = real["rx"]           # the vocabulary of Props/C19 (`isNmlId`) is the schema's NmlId pattern
+        if real != mout[0]:
+            ctx.disagree("pattern-" + k[6:], case["s"], real, mout[0])
+    elif k == "ref_parts":
+        # (a) the reading is a string of the pattern, spelled as the theorems spell it; (b) what the statement-level
+        # description says the code does on it, vs the real code and vs the translated model
+        ctx.corr_evals += 2
+        p = case["parts"]
+        text = ref_parts_text(p)
+        _, prx, _ = time_regex()
+        if prx is not None and not prx.match(text):
+            ctx.disagree("generator", text, "does not match Nml2PopulationReferencePath", None)
+        want = {"text": text, "outcome": ref_parts_outcome(p)}
+        if mout[0] != want:
+            ctx.disagree("statement-vocabulary", p, want, mout[0])
+        obj = build_real(case["cls"], {}, {})
+        real = call_real(lambda: obj._get_cell_id(text))
+        if real != mout[0].get("outcome"):
+            ctx.disagree("ref-classification", {"parts": p, "text": text, "cls": case["cls"]}, real, mout[0].get("outcome"))
+        if real != mout[1]:
+            ctx.disagree("cellid", {"cls": case["cls"], "arg": text}, real, mout[1])
+    elif k == "time_parts":
+        ctx.corr_evals += 1
+        x = exact_time_value(case["num"])
+        want = {"text": case["num"], "value": None if x is None else [str(x.numerator), str(x.denominator)]}
+        if mout[0] != want:
+            ctx.disagree("statement-vocabulary", case["parts"], want, mout[0])
     elif k == "spec":
         ctx.corr_evals += 1
         if mout[0] != case["want"]:
@@ -1388,39 +1401,104 @@ CORPUS = [
     {"kind": "cellid", "cls": "SynapticConnection", "arg": "x/5/c", "expect": None, "tags": ["corpus"], "nontrivial": False},
     {"kind": "hsfi", "family": "old", "conns": [{}, {"post_fraction_along": {"f": "0.0"}}], "expect": {"kind": "bool", "v": True},
      "tags": ["corpus"], "nontrivial": True},
-    {"kind": "doc", "seed": 7, "extras": 1, "roundtrip": True, "tags": ["corpus"], "nontrivial": True, "nets": [
-        {"id": "net_b", "temperature": None, "populations": [{"id": "zz", "instances": 0, "size": 5}, {"id": "aa", "instances": 3, "size": 9},
-                                                             {"id": "m0", "instances": 0, "size": None}],
-         "projections": [{"id": "p1", "connections": 2, "connection_wds": 1}],
-         "electrical_projections": [{"id": "e1", "electrical_connections": 1, "electrical_connection_instances": 2, "electrical_connection_instance_ws": 3}],
-         "continuous_projections": [{"id": "c1", "continuous_connections": 1, "continuous_connection_instances": 1, "continuous_connection_instance_ws": 2}],
-         "input_lists": [{"id": "il1", "input": 2, "input_ws": 0}, {"id": "il0", "input": 0, "input_ws": 3}],
-         "explicit_inputs": 2, "synaptic_connections": 1},
-        {"id": "net_a", "temperature": "32degC", "populations": [], "projections": [], "electrical_projections": [],
-         "continuous_projections": [], "input_lists": [], "explicit_inputs": 0, "synaptic_connections": 0}]},
 ]
+
+
+def corpus_docs():
+    """hand-made documents: every connection variant mixed in one projection of each kind, input and inputW mixed in
+    one list, populations size-only / instances-only / both disagreeing / neither, unsorted ids, two networks,
+    the flags, and the routes through XML, HDF5 and the handler-driving parser"""
+    def ref(s, n):
+        return {"s": s, "n": n}
+
+    def conn(i, pre, post, extra=None, **kw):
+        e = {"id": i, "pre": pre, "post": post, "pre_seg": None, "pre_segv": 0, "post_seg": None, "post_segv": 0,
+             "pre_frac": None, "pre_fracv": [1, 2], "post_frac": None, "post_fracv": [1, 2]}
+        e.update(kw)
+        e.update(extra or {})
+        return e
+
+    def inp(i, target, seg=None, segv=0, frac=None, fracv=(1, 2), **kw):
+        e = {"id": i, "target": target, "seg": seg, "segv": segv, "frac": frac, "fracv": list(fracv)}
+        e.update(kw)
+        return e
+    P = lambda n: ref("../pa/%d/iz0" % n, n)      # noqa
+    B = lambda n: ref("pb[%d]" % n, n)            # noqa
+    I = lambda n: ref(str(n), n)                  # noqa
+    net_b = {"id": "net_b", "temperature": None,
+             "populations": [{"id": "zz", "component": "iz0", "size": 5, "instances": 0, "loc0": [0.0, 0.0, 2.5], "props": []},
+                             {"id": "aa", "component": "iz0", "size": 9, "instances": 3, "loc0": [1.0, 1.5, 2.5], "props": [["color", "1 0 0"]]},
+                             {"id": "m0", "component": "iz0", "size": None, "instances": 0, "loc0": [0.0, 0.0, 2.5], "props": []},
+                             {"id": "_k", "component": "iz0", "size": None, "instances": 2, "loc0": [0.125, 0.0, 2.5], "props": []}],
+             "projections": [{"id": "p1", "pre": "aa", "post": "zz", "syn": "syn0",
+                              "connections": [conn(0, P(2), B(3), pre_seg=3, pre_segv=3, post_frac="0.25", post_fracv=[1, 4]), conn(1, P(1), P(0))],
+                              "connection_wds": [conn(0, B(7), P(10), weight="0.0", weightv=[0, 1], delay="0.5 s", delayv=[500, 1])]},
+                             {"id": "p0", "pre": "zz", "post": "aa", "syn": "syn0", "connections": [], "connection_wds": []}],
+             "electrical_projections": [{"id": "e1", "pre": "aa", "post": "zz",
+                                         "electrical_connections": [conn(0, I(1), I(2))],
+                                         "electrical_connection_instances": [conn(0, P(4), P(5)), conn(1, P(6), B(7))],
+                                         "electrical_connection_instance_ws": [conn(0, P(8), P(9), weight="0.25", weightv=[1, 4]),
+                                                                               conn(1, P(8), P(9), weight=None, weightv=[1, 1]),
+                                                                               conn(2, B(1), B(1), weight="0.0", weightv=[0, 1])]}],
+             "continuous_projections": [{"id": "c1", "pre": "zz", "post": "aa",
+                                         "continuous_connections": [conn(0, I(3), I(4))],
+                                         "continuous_connection_instances": [conn(0, P(1), P(2))],
+                                         "continuous_connection_instance_ws": [conn(0, P(3), P(4), weight="4.0", weightv=[4, 1]),
+                                                                               conn(1, P(5), P(6), weight="0.5", weightv=[1, 2])]}],
+             "input_lists": [{"id": "il1", "pop": "aa", "comp": "pg0", "input": [inp(0, P(1), 2, 2, "0.0", (0, 1)), inp(1, B(2))],
+                              "input_ws": [inp(2, P(0), weight="0.5", weightv=[1, 2])]},
+                             {"id": "il0", "pop": "zz", "comp": "pg0", "input": [],
+                              "input_ws": [inp(0, P(3), weight="0.0", weightv=[0, 1]), inp(1, P(4), weight=None, weightv=[1, 1]),
+                                           inp(2, B(4), 0, 0, "1.0", (1, 1), weight="2.0", weightv=[2, 1])]},
+                             {"id": "il2", "pop": "zz", "comp": "pg0", "input": [], "input_ws": []}],
+             "explicit_inputs": [{"target": B(1), "input": "pg0"}, {"target": P(2), "input": "pg0"}],
+             "synaptic_connections": [{"from": P(3), "to": B(4), "syn": "syn0", "dest": None}]}
+    net_a = {"id": "net_a", "temperature": "32degC", "populations": [], "projections": [], "electrical_projections": [],
+             "continuous_projections": [], "input_lists": [], "explicit_inputs": [], "synaptic_connections": []}
+    base = {"kind": "doc", "id": "corpus_doc", "flags": {}, "cells": 2, "pgs": 1, "includes": [], "ctypes": [], "props": [],
+            "tags": ["corpus"], "nontrivial": True}
+    out = [dict(base, via="direct", nets=[net_b, net_a], includes=["b.nml", "a.nml"], ctypes=["ct_1"], props=[["author", "x y"]]),
+           dict(base, via="direct", nets=[net_b, net_a], includes=["b.nml"], ctypes=["ct_1"], flags={"show_includes": False}),
+           dict(base, via="direct", nets=[net_a, net_b], includes=["b.nml"], flags={"show_non_network": False}),
+           dict(base, via="xml", nets=[net_b, net_a]),
+           dict(base, via="get_summary", nets=[net_b]),
+           dict(base, via="xmlparser", nets=[dict(net_b, populations=[dict(p, size=p["size"] or 0) for p in net_b["populations"]])])]
+    h5net = dict(net_b, explicit_inputs=[], synaptic_connections=[], input_lists=net_b["input_lists"][:2],
+                 projections=net_b["projections"][:1],
+                 populations=[dict(p, size=p["size"] or 0, props=[]) for p in net_b["populations"]])
+    out.append(dict(base, via="h5", nets=[h5net]))
+    out.append(dict(base, via="h5opt", nets=[dict(h5net, electrical_projections=[], continuous_projections=[],
+                                                  input_lists=[dict(l, input_ws=[]) for l in h5net["input_lists"][:1]])]))
+    return json.loads(json.dumps(out))
 
 
 def run_cases(ctx, cases):
     import shutil
     import tempfile
     lines, spans = [], []
+    tmp = None
+    REAL_DOCS.clear()
     for c in cases:
+        if c["kind"] == "doc":
+            if tmp is None:
+                tmp = tempfile.mkdtemp(prefix="verif_c19_")
+            REAL_DOCS[id(c)] = DOC.run_real(c, tmp)
         ls = model_lines(c)
         spans.append((len(lines), len(ls)))
         lines += ls
     rc, out = fw.run_driver("C19", lines)
     if rc != 0 or len(out) != len(lines):
         ctx.disagree("driver", "driver failed rc=%s, %d lines for %d" % (rc, len(out), len(lines)), "\n".join(out[-5:]), None)
+        REAL_DOCS.clear()
+        if tmp:
+            shutil.rmtree(tmp, ignore_errors=True)
         return
     mouts = [json.loads(l) for l in out]
-    tmp = None
     try:
         for c, (a, n) in zip(cases, spans):
-            if c["kind"] == "doc" and c.get("roundtrip") and tmp is None:
-                tmp = tempfile.mkdtemp(prefix="verif_c19_")
             check_case(ctx, c, mouts[a:a + n], tmp)
     finally:
+        REAL_DOCS.clear()
         if tmp:
             shutil.rmtree(tmp, ignore_errors=True)
 
@@ -1435,35 +1513,58 @@ def time_regex():
 
 
 def _time_regex():
+    """the three patterns as shipped in nml.py (the first class that carries each table)"""
+    out = []
     try:
+        import inspect
         import neuroml.nml.nml as nml
-        return re.compile(nml.ConnectionWD.validate_Nml2Quantity_time_patterns_[0][0]), \
-            re.compile(nml.Connection.validate_Nml2PopulationReferencePath_patterns_[0][0])
+        classes = [c for _, c in inspect.getmembers(nml, inspect.isclass)]
+        for name in ("Nml2Quantity_time", "Nml2PopulationReferencePath", "NmlId"):
+            pat = None
+            for c in classes:
+                t = c.__dict__.get("validate_%s_patterns_" % name)
+                if t:
+                    pat = t[0][0]
+                    break
+            out.append(re.compile(pat) if pat else None)
     except Exception:
-        return re.compile(TIME_RE_FALLBACK), None
+        out = [None, None, None]
+    if out[0] is None:
+        out[0] = re.compile(TIME_RE_FALLBACK)
+    return tuple(out)
 
 
 def run(ctx):
     rng = ctx.rng
     mult = ctx.search_mult
-    cases = [json.loads(json.dumps(c)) for c in CORPUS]
+    cases = [json.loads(json.dumps(c)) for c in CORPUS] + corpus_docs()
+    ncorpus = len(cases)
     n_acc = ctx.n(2500, 60000) * mult
     for i in range(n_acc):
         cases.append(gen_acc_case(rng, ACC_CLASSES[i % len(ACC_CLASSES)] if i < 4 * len(ACC_CLASSES) else None))
     for _ in range(ctx.n(150, 3000) * mult):
         cases.append(gen_size_case(rng))
-    for _ in range(ctx.n(1200, 30000) * mult):
+    # (a broken obligation multiplies the search; the streams that only compare recognisers get a smaller factor, so
+    #  that the quick tier stays under two minutes)
+    m5, m2 = min(mult, 5), min(mult, 2)
+    for _ in range(ctx.n(1200, 30000) * m5):
         cases.append(gen_cellid_case(rng))
-    for _ in range(ctx.n(1200, 30000) * mult):
+    for _ in range(ctx.n(1200, 30000) * m5):
         cases.append(gen_delay_case(rng))
-    for _ in range(ctx.n(400, 8000) * mult):
+    for _ in range(ctx.n(400, 8000) * m5):
         cases.append(gen_hsfi_case(rng))
-    for _ in range(ctx.n(1500, 40000) * mult):
+    for _ in range(ctx.n(1500, 40000) * m2):
         cases.append(gen_regex_case(rng))
-    for _ in range(ctx.n(400, 6000) * mult):
-        cases.append(gen_doc_case(rng, big=(ctx.tier == "thorough")))
+    for _ in range(ctx.n(700, 15000) * m2):
+        cases.append(gen_refrx_case(rng))
+    for _ in range(ctx.n(300, 5000) * m2):
+        cases.append(gen_idrx_case(rng))
+    for _ in range(ctx.n(500, 10000) * m5):
+        cases.append(gen_refparts_case(rng))
+    for _ in range(ctx.n(400, 6000) * min(mult, 3)):
+        cases.append(DOC.gen_doc_case(rng, big=(ctx.tier == "thorough")))
     # the generated references / spellings are inside the schema patterns and inside the theorems' vocabulary
-    trx, prx = time_regex()
+    trx, prx, _irx = time_regex()
     spec = []
     for c in cases:
         if c["kind"] == "cellid" and c.get("path"):
@@ -1476,9 +1577,18 @@ def run(ctx):
                 ctx.disagree("generator", c["arg"], "does not match Nml2Quantity_time", None)
             if len(spec) < ctx.n(300, 3000):
                 spec.append(spec_case_of(spelling=c["spelling"]))
+                spec.append({"kind": "time_parts", "parts": c["spelling"]["parts"], "num": c["spelling"]["num"], "tags": ["spec"],
+                             "nontrivial": False})
     cases += spec
-    for c in cases[len(CORPUS):len(CORPUS) + 4] + [c for c in cases if c["kind"] == "doc"][1:3]:
-        ctx.sample({k: v for k, v in c.items() if k in ("kind", "cls", "given", "set", "arg", "conns", "nets")})
+    for c in cases[ncorpus:ncorpus + 4]:
+        ctx.sample({k: v for k, v in c.items() if k in ("kind", "cls", "given", "set", "arg", "conns")})
+    for c in [c for c in cases[ncorpus:] if c["kind"] == "doc" and c["nets"]][:2]:
+        ctx.sample({"kind": "doc", "via": c["via"], "flags": c["flags"],
+                    "nets": [{"populations": [[p["instances"], p["size"]] for p in n["populations"]],
+                              "lists": {L: [{a: len(v) for a, v in it.items() if isinstance(v, list)} for it in n[L]]
+                                        for L in ("projections", "electrical_projections", "continuous_projections", "input_lists")},
+                              "explicit_inputs": len(n["explicit_inputs"]), "synaptic_connections": len(n["synaptic_connections"])}
+                             for n in c["nets"]]})
     run_cases(ctx, cases)
     ctx.extra["oracle_evaluations"] = sum(len(c.get("expect") or {}) if c["kind"] == "acc" else (1 if c.get("expect") else 0)
                                           for c in cases if c["kind"] != "doc") + 6 * sum(len(c["nets"]) for c in cases if c["kind"] == "doc")
